@@ -443,11 +443,13 @@ class Shelxfile():
                 self.part = self._assign_card(PART(self, spline), line_num)
                 continue
             # collect AFIX:
-            if line.startswith(('END', 'HKLF')) and self.afix:
-                self.afix.mn = 0
-                if self.debug or self.verbose:
+            if line.startswith(('END', 'HKLF')):
+                if self.afix and (self.debug or self.verbose):
                     print('AFIX in line {} was not closed'.format(line_num + 1))
-            elif word == 'AFIX':
+                # The AFIX group ends here. A new object, because the atoms above keep a reference to the old
+                # one. No elif below: HKLF and END themselves still have to be parsed.
+                self.afix = AFIX(self, ['AFIX', '0'])
+            if word == 'AFIX':
                 self.afix = self._assign_card(AFIX(self, spline), line_num)
             elif self.is_atom(line):
                 # A SHELXL atom:
